@@ -1729,7 +1729,10 @@ class Network(Cached):
         :rtype: 1d numpy array [node] of floats >= 0
         """
         k = self.degree() * 1.0
-        return self.undirected_adjacency() * k / k[k != 0]
+        knn = np.zeros(self.N)
+        #  (isolated nodes have no neighbours, their value is zero)
+        np.divide(self.undirected_adjacency() * k, k, out=knn, where=k != 0)
+        return knn
 
     @Cached.method(name="maximum neighbours' degrees")
     def max_neighbors_degree(self):
